@@ -697,5 +697,11 @@ def c08_wills(rng, sid, nscen):
             else:
                 steps.append({"op": "sleep", "ms": d * 1000 + 800})
             steps.append(BARRIER)
+        if rng.random() < 0.5:
+            # a subscriber that arrives after everything: a will published with Will Retain = 1 has been kept
+            # (MQTT 5 with Retain As Published: the RETAIN flag of a replayed message under other options is C07's finding)
+            steps.append(connect(7, "late", 5))
+            steps.append(sub(7, [{"n": "w/#", "qos": rng.randrange(3), "rap": True}]))
+            steps.append(BARRIER)
         out.append({"id": "%s-will%d" % (sid, i), "cfg": cfg, "hooks": True, "anydisc": anydisc, "steps": steps})
     return out
